@@ -1,21 +1,21 @@
 """C06 — Hybrid time-step loads conserve every month's ground energy.
 
 Proof: lean/GHEVerif/Props/C06.lean — for arbitrary monthly arrays (not only those derived from a
-profile) the entries `process_month_loads` emits for a month integrate to
-`cl − hl + rate·(durations of retained directions without a pulse)` (`month_energy_partial`), exactly
-`cl − hl` when nothing is lost (`month_energy_exact`), within `2·1e-6·|rate|` under the placeholder
-hypothesis (`month_energy_placeholder_bound`); the horizon sums (`horizon_energy_*`) for any number
-of months / whole years; `split_totals` ties `cl − hl` to the hourly profile.  The calendar is the
-*translated* source (Gen.monthdays / firstMonthHour / lastMonthHour) with closed forms proved for
-every month.  Two witnesses prove that the design's unconditional statement is false of the code
-(`month_energy_fails_when_clamped`, `zero_peak_direction_gets_real_duration` +
-`month_energy_off_by_rate_times_duration`); both are reproduced on the real implementation below.
+profile) the entries `process_month_loads` emits for a month integrate exactly to `cl − hl`
+(`month_energy`: every month whose pulses are on different days or that has at most one pulse;
+`month_energy_partial`: shared day, under the no-clamp hypothesis), the horizon sums
+(`horizon_energy_partial`, `horizon_energy_years_partial`) for any number of months / whole years,
+and `split_totals` ties `cl − hl` to the hourly profile.  The calendar is the *translated* source
+(Gen.monthdays / firstMonthHour / lastMonthHour) with closed forms proved for every month.
+`month_energy_fails_when_clamped` proves the unconditional statement false of the code (1 January,
+both peaks on the day, duration > 26 h: known finding same-day-pulse-clamped, reproduced below);
+`zero_peak_month_conserved` is the regression of the repaired zero-peak-direction defect (53c648d).
 
 Tie to the code: (1) Model/Hybrid.lean run against the real `HybridLoad` constructor on the same
 hourly profile and the implementation's own 48 `g_sts` samples: monthly arrays, durations and the
 whole (load, hour) sequence for several horizons; (2) arbitrary monthly arrays through the real
 `process_month_loads` vs the model; (3) the translated calendar vs the real functions.
-Predicate: `Fraction` month sums of the input profile vs the signed month integrals of the
+Predicate: exact month sums of the input profile vs the signed month integrals of the
 implementation's `load`/`hour` arrays.
 """
 from __future__ import annotations
@@ -30,7 +30,7 @@ PROPERTY = "C06"
 LEVEL = "proof"
 MANIFEST = {
     "text": "Every simulated month of the hybrid load sequence integrates to the month's net hourly ground load",
-    "note": "identity proved for arbitrary monthly arrays; two genuine defects of the unconditional statement are known findings",
+    "note": "exact identity proved for arbitrary monthly arrays; clamped same-day pulses on 1 January and degenerate durations of constant months are known findings",
     "technique": "Lean 4 proof over a Rat model + differential run against the real HybridLoad + Fraction oracle",
     "design_ref": "DESIGN.md §5 C06",
 }
@@ -72,18 +72,10 @@ def classify(case, raw, impl, end, ms, mt):
             continue
         r = mt[m]
         retained = H.ipf(i, start, end)
-        zdur = Fraction(0)
-        if retained and r["pcl"] == 0:
-            zdur += Fraction(r["dcl"])
-        if retained and r["phl"] == 0:
-            zdur += Fraction(r["dhl"])
         noon_c = (H.oracle_month_end(i - 1) + 1) + 24 * r["dayc"] + 12
         noon_h = (H.oracle_month_end(i - 1) + 1) + 24 * r["dayh"] + 12
         detail = {"month": i, "got_kWh": float(got), "want_kWh": float(want), "rate_kW": float(rate), "record": r}
-        if zdur > Fraction(1, 10 ** 5) and abs(float(got - want - rate * zdur)) <= tol_month(ms[m]) + 1e-9 * abs(float(rate * zdur)):
-            # explained exactly by theorem month_energy_partial: rate × duration of a pulse-less direction
-            fails.append(("zero-peak-direction-duration", i, got, want, detail))
-        elif retained and r["dayc"] == r["dayh"] and r["pcl"] > 0 and r["phl"] > 0 and (r["dcl"] / 2 > noon_c or r["dhl"] / 2 > noon_h):
+        if retained and r["dayc"] == r["dayh"] and r["pcl"] > 0 and r["phl"] > 0 and (r["dcl"] / 2 > noon_c or r["dhl"] / 2 > noon_h):
             fails.append(("same-day-pulse-clamped", i, got, want, detail))
         else:
             fails.append(("month-energy", i, got, want, detail))
@@ -104,7 +96,7 @@ def run(ctx: core.Ctx):
     ]
     ctx.assumptions += [
         "years=[2019] (the only value the tool passes): non-leap 8760-hour years; multi-year `years` lists are not modelled",
-        "'to floating-point accuracy' is read as |month integral − net| <= 1e-8·(cl+hl) + 1e-9 kWh (covers the 2·1e-6·|rate| placeholder term)",
+        "'to floating-point accuracy' is read as |month integral − net| <= 1e-8·(cl+hl) + 1e-9 kWh",
         "constant months (peak == average) are near-boundary for the duration (float noise decides the branch); their sequences are compared on the implementation's own monthly arrays",
     ]
     ctx.lean_prepare()
@@ -180,7 +172,7 @@ def run(ctx: core.Ctx):
         ctx.case(("arrays", a["style"], a["start"], a["end"], repr(a["recs"][0])), "load" in a["impl"])
         if a["style"] == "wild" or "load" not in a["impl"]:
             continue
-        # predicate of month_energy_partial on the real process_month_loads: Σ = cl − hl + rate·zeroPeakDur
+        # predicate of month_energy / month_energy_partial on the real process_month_loads: Σ = cl − hl
         s, e = a["start"], a["end"]
         load, hour = a["impl"]["load"], a["impl"]["hour"]
         ints = H.month_integrals(load, hour, [H.oracle_month_end(i) for i in range(s, e + 1)]) if hour[1] == float(H.oracle_month_end(s - 1)) else None
@@ -195,10 +187,9 @@ def run(ctx: core.Ctx):
                 j += 1
             rate = Fraction(load[j])
             ret = H.ipf(i, s, e)
-            z = (Fraction(dcl) if ret and pcl == 0 else 0) + (Fraction(dhl) if ret and phl == 0 else 0)
             noon = (H.oracle_month_end(i - 1) + 1) + 24 * dayc + 12
             clamped = ret and dayc == dayh and pcl > 0 and phl > 0 and (dcl / 2 > noon or dhl / 2 > noon)
-            want = Fraction(cl) - Fraction(hl) + rate * z
+            want = Fraction(cl) - Fraction(hl)
             if clamped:
                 ctx.count("arrays:clamped-month-skipped")
                 continue
